@@ -107,36 +107,38 @@ type Server struct {
 	srv *http2.Server
 	fs  *fasthttp.Server
 
-	Calls        []*Call
-	Running      int
-	MaxRunning   int
-	Out          []peer.Frame // every frame received, in order
-	OutEvent     []int        // event index at which Out[i] arrived
-	rest         []byte
-	Streams      map[uint32]*StreamOut
-	GoAways      []peer.Sem
-	Acks         int // SETTINGS ACKs received
-	Settings     [][]peer.Setting
-	Pings        int
-	PingAcks     int
-	WindowUps    []peer.Sem
-	Log          []string
-	Returned     bool
-	ServeErr     error
-	Events       int
-	HpackErr     string
-	ProtoErrs    []string // peer-side parse problems with what the server sent
-	dec          *hpack.Decoder
-	curBlock     uint32
-	blockBuf     []byte
-	blockEnd     bool
-	blockIdx     int
-	blockSizes   []int
-	PeerEnc      *PeerEncoder
-	EventLog     []string
-	ConnClosedAt int   // event index at which the server closed the transport (-1: open)
-	EnvSeq       int   // SPX: environment steps executed so far
-	OutOffset    []int // SPX: byte offset (in the explored phase's output) at which Out[i] started; -1 for earlier frames
+	Calls      []*Call
+	Running    int
+	MaxRunning int
+	Out        []peer.Frame // every frame received, in order
+	OutEvent   []int        // event index at which Out[i] arrived
+	rest       []byte
+	Streams    map[uint32]*StreamOut
+	GoAways    []peer.Sem
+	Acks       int // SETTINGS ACKs received
+	Settings   [][]peer.Setting
+	Pings      int
+	PingAcks   int
+	WindowUps  []peer.Sem
+	Log        []string
+	Returned   bool
+	ServeErr   error
+	Events     int
+	HpackErr   string
+	ProtoErrs  []string // peer-side parse problems with what the server sent
+	dec        *hpack.Decoder
+	curBlock   uint32
+	blockBuf   []byte
+	blockEnd   bool
+	blockIdx   int
+	blockSizes []int
+	PeerEnc    *PeerEncoder
+	EventLog   []string
+	// HandshakeRefused: the connection was over right after the client preface, SETTINGS and SETTINGS ack
+	HandshakeRefused bool
+	ConnClosedAt     int   // event index at which the server closed the transport (-1: open)
+	EnvSeq           int   // SPX: environment steps executed so far
+	OutOffset        []int // SPX: byte offset (in the explored phase's output) at which Out[i] started; -1 for earlier frames
 }
 
 type hlogger struct{ h *Server }
@@ -157,6 +159,12 @@ func NewServer(o ServerOpts) *Server {
 		s.SetChanCap(o.ChanCap)
 	}
 	c, _ := vsched.NewConnPair("server", "peer")
+	switch SegMode {
+	case 2:
+		c.ReadChunk = 1
+	case 3:
+		c.ReadChunk = 7
+	}
 	h := &Server{S: s, C: c, Opts: o, Streams: map[uint32]*StreamOut{}, ConnClosedAt: -1}
 	h.dec = hpack.NewDecoder(4096, nil)
 	h.PeerEnc = NewPeerEncoder()
@@ -171,6 +179,7 @@ func NewServer(o ServerOpts) *Server {
 		h.Send(peer.Preface)
 		h.SendFrames(peer.Settings(o.PeerSettings...))
 		h.SendFrames(peer.SettingsAck())
+		h.HandshakeRefused = h.Returned || h.C.Closed()
 		h.Events = 0
 		h.EventLog = nil
 	}
@@ -300,9 +309,30 @@ func (r *streamReader) Close() error {
 
 // ---- driver events ----
 
+// SegMode changes how the peer's bytes reach the implementation's transport in every harness created from now on:
+// 0 as given; 1 one octet per delivery, the implementation run to quiescence after each (every frame arrives in
+// pieces, reads resume in the middle of headers and payloads); 2 / 3 whole, but a Read returns at most 1 / 7 octets.
+var SegMode int
+
+// inject delivers b according to SegMode (the caller logs the event and runs the final step).
+func (h *Server) inject(b []byte) {
+	if SegMode == 1 {
+		for i := 0; i+1 < len(b); i++ {
+			h.C.Inject(b[i : i+1])
+			h.S.Run()
+			h.collect()
+		}
+		if len(b) > 0 {
+			h.C.Inject(b[len(b)-1:])
+		}
+		return
+	}
+	h.C.Inject(b)
+}
+
 // Send delivers raw bytes to the server and runs it to quiescence.
 func (h *Server) Send(b []byte) {
-	h.C.Inject(b)
+	h.inject(b)
 	h.step(fmt.Sprintf("send %d bytes", len(b)))
 }
 
@@ -314,7 +344,7 @@ func (h *Server) SendFrames(fs ...peer.Frame) {
 		b = f.Append(b)
 		names = append(names, f.String())
 	}
-	h.C.Inject(b)
+	h.inject(b)
 	h.step("send " + strings.Join(names, ", "))
 }
 
